@@ -169,7 +169,7 @@ func RunSched(line string) (ans string) {
 	for k := 0; k < 2; k++ {
 		tr := newJrTransport()
 		conn := gocql.VerifC06NewConn(tr, proto, coalesce, time.Hour, nil)
-		conn.SetStreamObserver(schedObs{})
+		conn.VerifC01fSetStreamObserver(schedObs{})
 		conns = append(conns, &schedConn{tr: tr, conn: conn, cur: -1})
 	}
 	cap := conns[0].conn.Cap()
@@ -340,7 +340,7 @@ func RunSched(line string) (ans string) {
 			c.cancel = cancel
 			calls = append(calls, c)
 			if c.typ == 'b' {
-				go func() { defer guard(c); c.buildErr, c.err = cn.conn.ExecBadFrame(ctx) }()
+				go func() { defer guard(c); c.buildErr, c.err = cn.conn.VerifC01fExecBadFrame(ctx) }()
 				waitFor(func() bool { return rested(c) }, fmt.Sprintf("call %d (buildFrame fails) did not return", c.idx))
 				continue
 			}
